@@ -164,6 +164,34 @@ macro_rules! parameters_published {
         });
     };
 }
+macro_rules! parameters_published_la {
+    ($name:ident, $la:expr, $yb:expr, $what:expr) => {
+        program!($name, "C16", "quick", v,
+            "Parameters::bake -> cam16::math::prepare_parameters [cam16/math.rs, cam16/parameters.rs]; read through the hook BakedParameters::verif_dependent",
+            concat!($what, ", average surround, D65, default discounting: the baked quantities that depend on the adapting and background luminance (D_RGB, F_L, F_L^(1/4), n, z, N_bb, A_w, inverse compression constant) equal step 0 of the published model"),
+        {
+            let sc = |v: f64| <<T as palette::num::FromScalar>::Scalar as palette::num::Real>::from_f64(v);
+            let mut p: Parameters<StaticWp<D65>, <T as palette::num::FromScalar>::Scalar> = Parameters::default_static_wp(sc($la));
+            p.background_luminance = sc($yb);
+            let baked = p.bake();
+            let f = baked.verif_dependent();
+            let g = |i: usize| <T as palette::num::FromScalar>::from_scalar(f[i]);
+            let vc = crate::specs::cam16_viewing_conditions::<T>(crate::specs::W_D65, T::k($la), $yb, (0.69, 1.0, 1.0));
+            let tol = T::tol(1e-9, 1e-6);
+            T::lemma("f_l", same_or_close(g(14), vc.fl, tol));
+            T::ensure("d_r", same_or_close(g(0), vc.d_rgb[0], tol)); T::ensure("d_g", same_or_close(g(1), vc.d_rgb[1], tol)); T::ensure("d_b", same_or_close(g(2), vc.d_rgb[2], tol));
+            T::ensure("n", same_or_close(g(6), vc.n, tol));
+            T::ensure("n_bb", same_or_close(g(7), vc.nbb, tol));
+            T::ensure("n_cb", same_or_close(g(9), vc.ncb, tol));
+            T::ensure("a_w", same_or_close(g(10), vc.aw, T::tol(1e-7, 1e-5)));
+            T::ensure("z", same_or_close(g(12), vc.z, tol));
+            T::ensure("f_l_4", same_or_close(g(13), vc.fl4, tol));
+            T::ensure("unadapt_constant", same_or_close(g(15) * vc.fl, T::k(100.0) * palette::num::Powf::powf(T::k(27.13), T::k(1.0) / T::k(0.42)), T::tol(1e-6, 1e-3)));
+        });
+    };
+}
+parameters_published_la!(c16_parameters_published_la4_yb10, 4.0, 0.1, "L_A = 4 cd/m^2, Y_b = 10");
+parameters_published_la!(c16_parameters_published_la400_yb40, 400.0, 0.4, "L_A = 400 cd/m^2, Y_b = 40");
 parameters_published!(c16_parameters_published_average, Surround::Average, (0.69, 1.0, 1.0), "average surround");
 parameters_published!(c16_parameters_published_dim, Surround::Dim, (0.59, 0.9, 0.9), "dim surround");
 parameters_published!(c16_parameters_published_dark, Surround::Dark, (0.525, 0.8, 0.8), "dark surround");
@@ -220,7 +248,8 @@ program!(c16_forward_published_given_vc, "C16", "quick", v,
 
 pub fn all() -> Vec<crate::Prog> {
     vec![c16_partial_eq_full_average::prog(), c16_partial_eq_full_dim::prog(), c16_black_and_white::prog(), c16_ucs::prog(),
-         c16_parameters_published_average::prog(), c16_parameters_published_dim::prog(), c16_parameters_published_dark::prog(), c16_forward_published_given_vc::prog()]
+         c16_parameters_published_average::prog(), c16_parameters_published_dim::prog(), c16_parameters_published_dark::prog(), c16_forward_published_given_vc::prog(),
+         c16_parameters_published_la4_yb10::prog(), c16_parameters_published_la400_yb40::prog()]
     // not registered: c16_forward_published_* (forward model == published equations as a chain of cut-point lemmas): the portfolio
     // does not discharge the lemmas within 90 s each (see DESIGN.md 8.5); the bounded lattice programs lat_cam16_forward_* stand in
 }
